@@ -60,8 +60,9 @@ type C14Scenario struct {
 	Slots   int          `json:"slots"`
 	QSize   int          `json:"qsize"`
 	Callers [][]laneCall `json:"callers"`
-	StopK   int          `json:"stop_k"` // -1: stop only at the end; else a stopper task stops after k yields
-	RunK    int          `json:"run_k"`  // 0: Run before the first call (the usual order); k > 0: a starter task calls Run after k-1 yields, so calls - and Stop - may come first
+	StopK   int          `json:"stop_k"`   // -1: stop only at the end; else a stopper task stops after k yields
+	WaitVia string       `json:"wait_via"` // both | own | wg (runner queue, proc channel)
+	RunK    int          `json:"run_k"`    // 0: Run before the first call (the usual order); k > 0: a starter task calls Run after k-1 yields, so calls - and Stop - may come first
 }
 
 var hashes = []int{0, 1, -1, 2, 3, 5, -5, 7, math.MaxInt, math.MinInt, math.MinInt + 1, 1 << 40, -(1 << 40)}
@@ -72,6 +73,7 @@ func drawC14(rt *rapid.T) interface{} {
 	sc.Slots = rapid.SampledFrom([]int{1, 2, 3, 5}).Draw(rt, "slots")
 	sc.QSize = rapid.SampledFrom([]int{1, 2, 8}).Draw(rt, "qsize")
 	sc.StopK = rapid.SampledFrom([]int{-1, -1, 0, 1, 2, 4, 8}).Draw(rt, "stopk")
+	sc.WaitVia = rapid.SampledFrom([]string{"both", "own", "wg"}).Draw(rt, "waitvia")
 	sc.RunK = rapid.SampledFrom([]int{0, 0, 0, 1, 2, 5, 12}).Draw(rt, "runk")
 	nc := rapid.IntRange(2, hx.Pick(5, 7)).Draw(rt, "ncallers")
 	id := 1
@@ -117,6 +119,10 @@ type callRec struct {
 }
 
 type calleeFn func(ctx context.Context, lane int) (interface{}, error)
+
+// waitVia says how the harness learns that a runner queue / proc channel has stopped: "own" = its WaitStop only,
+// "wg" = the WaitGroup handed in as an option only, "both" (set per scenario; the harness is one scenario at a time).
+var waitVia = "both"
 
 type executor interface {
 	Run()
@@ -176,10 +182,18 @@ func (e *runnerEx) Call(ctx context.Context, hash int, fn calleeFn) (interface{}
 	}
 	return e.r.AsyncProc(ctx, procT{fn})
 }
-func (e *runnerEx) Stop()                    { e.r.Stop() }
-func (e *runnerEx) WaitStopped(s *simrt.Sim) { e.r.WaitStop(); e.wg.Wait() }
-func (e *runnerEx) Closed(err error) bool    { return err == async.ErrClosed }
-func (e *runnerEx) Full(err error) bool      { return err == async.ErrFull }
+func (e *runnerEx) Stop() { e.r.Stop() }
+func (e *runnerEx) WaitStopped(s *simrt.Sim) {
+	// either way of learning that the runner has stopped must be enough on its own
+	if waitVia != "wg" {
+		e.r.WaitStop()
+	}
+	if waitVia != "own" {
+		e.wg.Wait()
+	}
+}
+func (e *runnerEx) Closed(err error) bool { return err == async.ErrClosed }
+func (e *runnerEx) Full(err error) bool   { return err == async.ErrFull }
 
 type procChanEx struct {
 	p  *async.ProcChan
@@ -190,10 +204,17 @@ func (e *procChanEx) Run() { e.p.Run() }
 func (e *procChanEx) Call(ctx context.Context, hash int, fn calleeFn) (interface{}, error) {
 	return e.p.AsyncProc(ctx, procT{fn})
 }
-func (e *procChanEx) Stop()                    { e.p.Stop() }
-func (e *procChanEx) WaitStopped(s *simrt.Sim) { e.p.WaitStop(); e.wg.Wait() }
-func (e *procChanEx) Closed(err error) bool    { return err == async.ErrClosed }
-func (e *procChanEx) Full(err error) bool      { return err == async.ErrFull }
+func (e *procChanEx) Stop() { e.p.Stop() }
+func (e *procChanEx) WaitStopped(s *simrt.Sim) {
+	if waitVia != "wg" {
+		e.p.WaitStop()
+	}
+	if waitVia != "own" {
+		e.wg.Wait()
+	}
+}
+func (e *procChanEx) Closed(err error) bool { return err == async.ErrClosed }
+func (e *procChanEx) Full(err error) bool   { return err == async.ErrFull }
 
 func valFor(id int) interface{} { return fmt.Sprintf("result-of-%d", id) }
 func errFor(id int) error       { return fmt.Errorf("error-of-%d", id) }
@@ -201,10 +222,14 @@ func errFor(id int) error       { return fmt.Errorf("error-of-%d", id) }
 func runC14(t *testing.T, sci interface{}, keepLog bool) *hx.Outcome {
 	sc := sci.(*C14Scenario)
 	warmUp(t)
+	waitVia = sc.WaitVia
+	if waitVia == "" {
+		waitVia = "both"
+	}
 	var (
 		ev            int64
 		recs          []*callRec
-		busy          = map[int]int{} // lane task -> id of the call running there (0 = idle)
+		busy          = map[int]int{} // lane -> id of the call running there (0 = idle)
 		laneOfTask    = map[int]int{}
 		taskOfLane    = map[int]int{}
 		laneOfHash    = map[int]int{}
@@ -295,10 +320,16 @@ func runC14(t *testing.T, sci interface{}, keepLog bool) *hx.Outcome {
 						if r.afterStop {
 							s.Fail("executed-after-stop", "call %d was invoked after Stop had returned and was executed nevertheless", c.ID)
 						}
-						if other := busy[lt.Idx]; other != 0 {
-							s.Fail("lane-overlap", "call %d started on lane task %d while call %d was still running there", c.ID, lt.Idx, other)
+						// the lane is the unit of seriality, whichever goroutine the executor uses to run the callee: one lane for
+						// the single executors, the lane index handed to the callee for the multi-line executor
+						laneKey := 0
+						if multiLaneKind {
+							laneKey = lane
 						}
-						busy[lt.Idx] = c.ID
+						if other := busy[laneKey]; other != 0 {
+							s.Fail("lane-overlap", "call %d started on lane %d (goroutine %d) while call %d was still running on that lane", c.ID, laneKey, lt.Idx, other)
+						}
+						busy[laneKey] = c.ID
 						if multiLaneKind {
 							if lane < 0 || lane >= sc.Slots {
 								s.Fail("lane-index-out-of-range", "callee got lane index %d, lanes = %d", lane, sc.Slots)
@@ -334,7 +365,7 @@ func runC14(t *testing.T, sci interface{}, keepLog bool) *hx.Outcome {
 						for i := 0; i < c.Yields; i++ {
 							simrt.Yield()
 						}
-						busy[lt.Idx] = 0
+						busy[laneKey] = 0
 						ev++
 						r.ends++
 						s.Logf("end call %d", c.ID)
@@ -438,7 +469,18 @@ func runC14(t *testing.T, sci interface{}, keepLog bool) *hx.Outcome {
 				}
 			}
 		}
-		// lane goroutines terminated
+		// lane goroutines terminate: the stop wait has returned; what is left of them may still be on its way out
+		// (a deferred close after the signal, a select that has just been woken by the closed stop channel), so let them
+		// run until each is done or blocked - blocked means it never ends
+		simrt.Yield()
+		s.Block(simrt.Cur(), func() bool {
+			for _, tk := range s.Tasks() {
+				if strings.HasPrefix(tk.Name, "go@") && tk.State() != simrt.Done && !tk.Blocked() {
+					return false
+				}
+			}
+			return true
+		}, "harness:lanes-winding-down")
 		for _, tk := range s.Tasks() {
 			if strings.HasPrefix(tk.Name, "go@") && tk.State() != simrt.Done {
 				s.Fail("lane-goroutine-alive", "goroutine %d (%s) of the executor is still alive after Stop and the stop wait returned: %s", tk.Idx, tk.Name, tk.WaitDesc())
